@@ -2205,7 +2205,12 @@ class Interp:
                 isinstance(x, (ast.Constant, ast.Name, ast.Attribute, ast.Tuple, ast.List, ast.UnaryOp, ast.Dict, ast.Load,
                                ast.USub, ast.expr_context))
                 for x in ast.walk(node))
-            if is_table or isinstance(node, (ast.Name, ast.Attribute)) or (
+            # an immutable value built from literals:  _EXCLUDED = frozenset([1])
+            is_frozen = isinstance(node, ast.Call) and isinstance(node.func, ast.Name) and node.func.id in (
+                "frozenset", "tuple") and node.func.id not in m.functions and not node.keywords and all(
+                isinstance(x, (ast.Constant, ast.Tuple, ast.List, ast.Set, ast.Load, ast.UnaryOp, ast.USub, ast.expr_context))
+                for a_ in node.args for x in ast.walk(a_))
+            if is_table or is_frozen or isinstance(node, (ast.Name, ast.Attribute)) or (
                     isinstance(node, ast.Call) and ast.unparse(node.func) in ("partial", "functools.partial")):
                 if key_ not in self._alias_stack:
                     self._alias_stack.append(key_)
@@ -2708,6 +2713,9 @@ class Interp:
                             self.depth -= 1
                         nv_ = [nt_field(b_t, f_) for f_ in fields_]
                         if all(v is not None for v in nv_):
+                            if not hasattr(self, "record_whiles"):
+                                self.record_whiles = []
+                            self.record_whiles.append((init_[1][1], tuple(fields_)))   # which record the tuple state stands for
                             w_ = self.call(("ext", "jax.lax.while_loop"),
                                            [("lam", 1, c_t, d_), ("lam", 1, ("tuple", tuple(nv_)), d_), ("tuple", tuple(vals_))], {}, ctx)
                             w_ = self.as_term(w_)
